@@ -31,6 +31,29 @@ CH36 = ['inferior_conjunction', 'superior_conjunction', 'conjunction', 'oppositi
 ELONG = ['western_elongation', 'eastern_elongation']
 
 
+_SEG_CACHE = {}
+
+
+def _fast_segment(source, node):
+    """ast.get_source_segment without re-splitting the whole file on every call (that is quadratic)."""
+    key = id(source)
+    ent = _SEG_CACHE.get(key)
+    if ent is None or ent[0] is not source:
+        ent = (source, ast._splitlines_no_ff(source))
+        _SEG_CACHE[key] = ent
+    lines = ent[1]
+    try:
+        l0, l1, c0, c1 = node.lineno - 1, node.end_lineno - 1, node.col_offset, node.end_col_offset
+    except AttributeError:
+        return None
+    if l0 == l1:
+        return lines[l0].encode()[c0:c1].decode()
+    first = lines[l0].encode()[c0:].decode()
+    last = lines[l1].encode()[:c1].decode()
+    return ''.join([first] + lines[l0 + 1:l1] + [last])
+
+
+
 class Reject(Exception):
     pass
 
@@ -63,7 +86,7 @@ def literal(ctx, node):
         node = node.operand
     if not (isinstance(node, ast.Constant) and type(node.value) in (int, float)):
         return None
-    txt = ast.get_source_segment(ctx['src'], node)
+    txt = _fast_segment(ctx['src'], node)
     d = dec_of_text(txt or '')
     if d is None:
         fail(ctx, node, 'numeric literal %r not understood' % txt)
@@ -405,7 +428,7 @@ def main():
             if fn.name in seen:
                 fail(ctx, fn, 'method defined twice')
             seen.add(fn.name)
-            fsrc = ast.get_source_segment(src, fn)
+            fsrc = _fast_segment(src, fn)
             code_only = '\n'.join(ast.unparse(s) for s in body_of(fn))
             if fn.name in CH36:
                 ch36.append((ctx['fn'], translate_ch36(ctx, fn)))
